@@ -101,6 +101,7 @@ class Interp:
         if self.pos < self.check_from:
             return
         self.R.tr()
+        self.R.outcome((abstract_full(self.cur, self.stack), self.hist[self.pos - 1] if self.pos else "init"))
         got = numpoly.get_options()
         if got != self.cur:
             diff = {k: (got.get(k), self.cur.get(k)) for k in set(got) | set(self.cur) if got.get(k) != self.cur.get(k)}
